@@ -376,6 +376,11 @@ func (fr *frame) applyContract(fc *FuncContract, key string, callee *ssa.Functio
 	// requires -> obligations of the caller
 	for _, r := range fc.Requires {
 		g := s.evalBool(env, r.E)
+		if s.FC != nil && s.FC.AssumeCalleeReq {
+			s.note("%s: precondition %s of callee %s assumed at the call site, not proved (trustcallees)", FuncKey(s.Top), r.Label, lastSeg(key))
+			s.assume(st, g)
+			continue
+		}
 		s.addObl(&Obligation{Name: fmt.Sprintf("%s#call:%s:requires:%s", shortKey(FuncKey(s.Top)), lastSeg(key), r.Label), Props: fr.callerProps(), Kind: "requires-call", Label: r.Label, Goal: fmt.Sprintf("(=> %s %s)", st.Guard, g), Src: r.Src})
 		s.assume(st, g)
 	}
